@@ -373,13 +373,14 @@ func sourceDroppedWhenStreamEnds(c *core.Ctx) {
 }
 
 // mergedKeyAndDropAll:
-//   (a) the key under which the merged table files a route distinguishes everything that makes two advertised routes
-//       different routes — either the whole API message is hashed (proto.Marshal of the route itself), or, when the key
-//       is assembled from parts, no part is a digest that leaves the add-path identifier out (BGPPath.ComputeHash):
-//       two paths of one prefix that differ only in their identifier would share a container, and withdrawing one
-//       removes the route while the other is still advertised;
-//   (b) a source that drops visits every container: DropAllBySrc has no return ahead of its walk over the route map (a
-//       per-source counter that says "holds nothing" can be wrong after repeated withdrawals).
+//
+//	(a) the key under which the merged table files a route distinguishes everything that makes two advertised routes
+//	    different routes — either the whole API message is hashed (proto.Marshal of the route itself), or, when the key
+//	    is assembled from parts, no part is a digest that leaves the add-path identifier out (BGPPath.ComputeHash):
+//	    two paths of one prefix that differ only in their identifier would share a container, and withdrawing one
+//	    removes the route while the other is still advertised;
+//	(b) a source that drops visits every container: DropAllBySrc has no return ahead of its walk over the route map (a
+//	    per-source counter that says "holds nothing" can be wrong after repeated withdrawals).
 func mergedKeyAndDropAll(c *core.Ctx) {
 	p := c.P
 	const pkg = "routingtable/mergedlocrib"
